@@ -9,6 +9,15 @@ PROP = "C05"
 def run(tier: str, seed: int) -> int:
     n = K.N_QUICK if tier == "quick" else K.N_THOROUGH
     cases = gen_cases(PROP, n, seed, K.MONITORS, K.features, **K.COMMON)
+    # finite-difference modes on boxes with fixed variables (lb == ub): every objective call, stencil points included, is counted once
+    import random as _random
+    for i in range(n // 6):
+        s_ = seed * 1_000_003 + 850_000 + i
+        r_ = _random.Random(s_)
+        cases.append({"seed": s_, "monitors": K.MONITORS, "box": "degenerate", "small_budgets": False,
+                      "features": {"jac": r_.choice(["2-point", "3-point", "none", "cs"]), "callback": r_.choice(["none", "false"]), "ftarget": "none",
+                                   "gtol_callable": False, "scaler": "none", "update": "none"},
+                      "override": {"maxiter": r_.choice([3, 8, 20])}})
     # corpus first: runs in which a rejected pair is immediately followed by a failed line search and a memory reset
     from harness.gen import reset_corpus_cases
     cases = reset_corpus_cases(K.MONITORS, [seed * 1_000_003 + 800_000 + i for i in range(n // 12)]) + cases
